@@ -73,7 +73,9 @@ __CPROVER_ensures((g_nsets == 1 && g_set_kind == 3) ==> (g_name_seed_ok && g_set
 #ifdef INST_LINE
 /* _parseSettingsLine: any NUL-terminated content of the buffer loadSettingsFile() hands over */
 int w_line(char* line, int lineNumber, const unsigned char* mb, const unsigned char* mi, const unsigned char* mr)
-__CPROVER_requires(0 <= g_len && g_len <= MAXLEN && __CPROVER_is_fresh(line, g_len + 1 + SLACK) && line[g_len] == '\0')
+/* the call site: char line[SPX_SET_MAX_LINE_LEN] filled by getline(): a terminator at g_len <= SPX_SET_MAX_LINE_LEN-1,
+ * arbitrary (stale) bytes behind it; with SLACK the byte behind the terminator exists and is NUL as well */
+__CPROVER_requires(__CPROVER_is_fresh(line, MAXLEN + 1) && 0 <= g_len && g_len <= MAXLEN - SLACK && line[g_len] == '\0')
 __CPROVER_requires(SLACK == 0 || line[g_len + SLACK] == '\0')
 __CPROVER_requires(TABLES_FRESH)
 __CPROVER_requires(0 <= g_k && g_k <= g_len && v_g == line[g_k])
